@@ -327,6 +327,28 @@ def sec_results(rep):
 
                 rep.check(f"C15/{cls}Result/from_document(get_raw(r)) = r/orders={nkeys}/nf={nf}", case, sy)
 
+    # number types: whatever real number the result holds (numpy scalars out of the kinematics loop,
+    # ints from a card), get_raw hands builtin float/int/None to the yaml-safe dumper -- for every nf
+    kin_types = {"float": float, "int": int, "np.float64": np.float64, "np.float32": np.float32, "np.int64": np.int64}
+    nf_vals = {"None": None, "int": 4, "np.int64": np.int64(4), "np.int32": np.int32(5)}
+    for cls in ("ESF", "EXS"):
+        for kt, kf in kin_types.items():
+            for nt, nfv in nf_vals.items():
+                rep.cases += 1
+                try:
+                    args = (kf(2), kf(3)) + ((kf(1),) if cls == "EXS" else ()) + (nfv,)
+                    r = (ESFResult if cls == "ESF" else EXSResult)(*args)
+                    r.orders[(1, 0, 0, 1)] = (np.array([[0.5, 1.5]]), np.array([[0.0, 0.25]]))
+                    raw = r.get_raw()
+                    plain(raw, True)
+                    fields = ["x", "Q2"] + (["y"] if cls == "EXS" else [])
+                    types_ok = all(type(raw[f]) is float for f in fields) and (raw["nf"] is None if nfv is None else type(raw["nf"]) is int)
+                    vals_ok = raw["x"] == 2.0 and raw["Q2"] == 3.0 and (nfv is None or raw["nf"] == int(nfv))
+                    ok, detail = types_ok and vals_ok, str({f: type(raw[f]).__name__ for f in fields + ["nf"]})
+                except Exception as e:  # noqa
+                    ok, detail = False, f"{type(e).__name__}: {e}"
+                rep.add(ob_eval(f"C15/{cls}Result/get_raw yields builtin float/int/None/kinematics:{kt}/nf:{nt}", ok, detail=detail, inputs={} if ok else {"class": cls, "kinematics_type": kt, "nf": repr(nfv), "observed": detail}))
+
 
 def roundtrip(sy, fmt, shape, cycles=1):
     from yadism import output as outmod
